@@ -231,7 +231,7 @@ fn gen_waist(r: &mut Rng) -> (f64, f64) {
 
 /// a random valid setup; the result is the PRIMITIVE record (the SPDC used for the real
 /// computations is rebuilt from it)
-fn gen_prim(r: &mut Rng) -> Option<Prim> {
+pub(crate) fn gen_prim(r: &mut Rng) -> Option<Prim> {
   let crystal = r.pick(&CRYSTALS).clone();
   let pm_type = *r.pick(&PMTYPES);
   let deg = r.below(6) == 0;
